@@ -325,13 +325,13 @@ class Ctx(object):
 
     # ------------------------------------------------------------------ E1
     def lattice(self, name, units, one, expand=None, nworkers=None, bounds=None,
-                engine="lattice", fpstrict=False, wstrict=False, envstrict=False):
+                engine="lattice", fpstrict=False, wstrict=False, envstrict=False, fpignore=False):
         """enumerate: for unit in units: for case in expand(unit): one(case, rec)
 
         ``units`` is a list (sharded over workers); ``expand`` (default:
         identity) yields the fully specified cases of a unit.
         """
-        if getattr(self, "envstrict_all", False) and not name.endswith(("/strict-environment", "/fp-strict", "/warnings-as-errors")):
+        if getattr(self, "envstrict_all", False) and not name.endswith(("/strict-environment", "/fp-strict", "/warnings-as-errors", "/fp-errors-ignored")):
             envstrict = True
         part = Part(name, one, engine)
         self.parts[name] = part
@@ -344,6 +344,8 @@ class Ctx(object):
                 self._wstrict_pass(name, units, one, expand, nworkers, bounds, engine)
             if envstrict:
                 self._envstrict_pass(name, units, one, expand, nworkers, bounds, engine)
+            if fpignore:
+                self._fpignore_pass(name, units, one, expand, nworkers, bounds, engine)
             return part
         units = list(units)
         part.units = units
@@ -384,7 +386,22 @@ class Ctx(object):
             self._wstrict_pass(name, units, one, expand, nworkers, bounds, engine)
         if envstrict:
             self._envstrict_pass(name, units, one, expand, nworkers, bounds, engine)
+        if fpignore:
+            self._fpignore_pass(name, units, one, expand, nworkers, bounds, engine)
         return part
+
+    def _fpignore_pass(self, name, units, one, expand, nworkers, bounds, engine):
+        """the same part once more with numpy's floating-point error handling switched OFF (numpy.errstate(all='ignore'),
+        what number-crunching applications commonly set): code that notices a condition only through a warning or an
+        exception of the FP machinery (try arccos, clip and redo if it complains) silently returns NaN there"""
+        import numpy as _np
+
+        def lenient_one(case, rec):
+            with _np.errstate(all="ignore"):
+                return one(case, rec)
+        b = dict(bounds or {})
+        b["environment"] = "numpy.errstate(all='ignore')"
+        return self.lattice(name + "/fp-errors-ignored", units, lenient_one, expand=expand, nworkers=nworkers, bounds=b, engine=engine)
 
     def _envstrict_pass(self, name, units, one, expand, nworkers, bounds, engine):
         """both strict environments at once (floating-point errors trap AND every warning is an exception), for parts
